@@ -8,6 +8,11 @@ Binding B: every profile class for every layer count 2..120 with random grids, n
            (clauses validated by TLC), exact NPoint re-evaluation by TLC on logspace grids, Guillot: outcome
            classification + closed form against an independent evaluation (E2 by plain-Python quadrature);
            canaries.
+Binding C: spec/Functional.tla walks on long-lived bare profile objects (harness/history.py, fx_profiles.py);
+           spec/ProfileOwner.tla walks on forward models that OWN planet and grid of a shared profile object
+           (harness/fx_c12owner.py): the models' fitting parameters, rebuilds, evaluations; every exposed profile
+           against a freshly built model and the closed form / control range for the model's CURRENT settings,
+           validated by Trace_ProfileOwner.tla.
 """
 import math
 import random
@@ -818,7 +823,8 @@ def run(ctx):
     ctx.bounds = dict(tier=ctx.tier,
                       exhaustive='layer counts 2..%d, <=3 nodes on/between/outside the layers (+4 nodes for <=4 layers in thorough), temperatures {1,2,4}, windows 0..300%%, slope limits {2,1000}; Rodgers 2-3 layers; Guillot sign/zero classes with an abstract eta table' % (6 if q else 8),
                       layer_counts='binding B: every n in 2..30%s' % (' + 24 seeded counts of 31..120' if q else ' and 31..120'),
-                      guillot_closed_form='compared at 1e-8 where gamma1, gamma2 in [1e-3, 1e3] (the closed form loses digits outside)')
+                      guillot_closed_form='compared at 1e-8 where gamma1, gamma2 in [1e-3, 1e3] (the closed form loses digits outside)',
+                      owners='two forward models (transmission, emission) sharing one profile object; 3 values each of planet_radius, planet_mass, atm_max_pressure, atm_min_pressure and one profile control, 2 layer counts per class; walks of 10 steps (+ an evaluation after every change)')
     ctx.assumptions = ['E2 evaluated by 20-point Gauss-Legendre on dyadic panels in plain Python (cross-checked against its series)',
                        'planet gravity is input data', 'float 10**k / log10 exact to 1e-12 on integer decades',
                        'TLC + CommunityModules Json/IOUtils']
